@@ -162,6 +162,58 @@ func TestE2StateSnapCrash(t *testing.T) {
 		{"state.open", "snap.open", "snap.new w1 9 2 " + dc, "snap.write w1 01", "snap.close w1", "snap.read", "snap.new w2 10 2 " + dc, "snap.write w2 0202", "snap.close w2", "snap.read",
 			"snap.new w3 100 3 " + dc, "snap.write w3 030303", "snap.close w3", "snap.read", "snap.new w4 100 3 " + dc, "snap.write w4 04040404", "snap.close w4", "snap.read"},
 	}
+	// many snapshots in one directory (the library never removes an old one): after each Close the storage, and a
+	// second storage object opened over the same directory, must return the snapshot just closed. Labels cross
+	// powers of ten and repeat; no strace here, the directory only grows.
+	{
+		dir := filepath.Join(root, "many")
+		os.MkdirAll(dir, 0o755)
+		line := "MANY | 40 snapshots closed one after another in one directory, the newest read back after each"
+		if sn, err := raft.NewSnapshotStorage(dir); err == nil {
+			label := uint64(5)
+			okAll := true
+			for i := 0; i < 40 && okAll; i++ {
+				label += []uint64{0, 1, 3, 40, 900}[rng.Intn(5)]
+				f, err := sn.NewSnapshotFile(label, 1+uint64(i%3), dcb)
+				if err != nil {
+					rep.Add(Finding{Kind: "oracle", Property: "C13", Oracle: "NewSnapshotFile failed in a directory that holds closed snapshots: " + err.Error(), Case: line, Signature: map[string]string{"oracle": "live-snapshot-read"}})
+					break
+				}
+				payload := []byte(fmt.Sprintf("snapshot #%d labelled %d", i, label))
+				f.Write(payload)
+				if err := f.Close(); err != nil {
+					rep.Add(Finding{Kind: "oracle", Property: "C13", Oracle: "Close of a snapshot writer failed: " + err.Error(), Case: line, Signature: map[string]string{"oracle": "live-snapshot-read"}})
+					break
+				}
+				for pass := 0; pass < 2; pass++ {
+					var found bool
+					var gs snapSpec
+					var rerr error
+					if pass == 0 {
+						if g, err := sn.SnapshotFile(); err != nil || g == nil {
+							rerr = fmt.Errorf("SnapshotFile: %v", err)
+						} else {
+							md := g.Metadata()
+							data, _ := io.ReadAll(g)
+							g.Close()
+							found, gs = true, snapSpec{index: md.LastIncludedIndex, term: md.LastIncludedTerm, data: data}
+						}
+					} else {
+						found, gs, rerr = readSnap(dir)
+					}
+					rep.Case(fmt.Sprintf("%s #%d.%d", line, i, pass), true)
+					rep.Hit("many-snapshots")
+					if rerr != nil || !found || gs.index != label || !bytes.Equal(gs.data, payload) {
+						okAll = false
+						rep.Add(Finding{Kind: "oracle", Property: "C13", Oracle: "SnapshotFile() does not return the most recently closed snapshot (complete, with its metadata) in a directory that holds many", Case: line,
+							Impl:      fmt.Sprintf("after closing snapshot #%d (label %d) the %s returned found=%v label=%d %q err=%v", i, label, map[int]string{0: "same storage object", 1: "storage reopened over the directory"}[pass], found, gs.index, gs.data, rerr),
+							Signature: map[string]string{"oracle": "live-snapshot-read"}})
+						break
+					}
+				}
+			}
+		}
+	}
 	for sidx := 0; sidx < nscripts+len(directed); sidx++ {
 		var script []string
 		if sidx < len(directed) {
